@@ -457,3 +457,110 @@ package analysis
 //@   ensures old(primary.ExternalDocs) != nil && old(m.ExternalDocs) != nil && old(primary.ExternalDocs) != old(m.ExternalDocs) ==> primary.ExternalDocs.Description == fill(old(primary.ExternalDocs.Description), old(m.ExternalDocs.Description)) && primary.ExternalDocs.URL == fill(old(primary.ExternalDocs.URL), old(m.ExternalDocs.URL))
 //@   ensures old(primary.ExternalDocs) != nil && old(m.ExternalDocs) == nil ==> *primary.ExternalDocs == old(*primary.ExternalDocs)
 //@   ensures primary.Extensions == (if old(primary.Extensions) == nil then old(m.Extensions) else old(primary.Extensions))
+
+// ---------------------------------------------------------------- analyzer.go: the index walk (C11-C16)
+
+// idxMaps: the index maps of an analyzed Spec exist (established by reset)
+//@ fun idxMaps(s *Spec) bool = s.allSchemas != nil && s.allOfs != nil && s.references.schemas != nil && s.references.responses != nil && s.references.parameters != nil && s.references.items != nil && s.references.headerItems != nil && s.references.parameterItems != nil && s.references.allRefs != nil && s.references.pathItems != nil && s.patterns.parameters != nil && s.patterns.headers != nil && s.patterns.items != nil && s.patterns.schemas != nil && s.patterns.allPatterns != nil && s.enums.parameters != nil && s.enums.headers != nil && s.enums.items != nil && s.enums.schemas != nil && s.enums.allEnums != nil && s.consumes != nil && s.produces != nil && s.authSchemes != nil && s.operations != nil
+
+//@ func (s *Spec) analyzeSchema(name, schema, prefix)
+//@   requires s != nil && schema != nil && idxMaps(s)
+//@   modifies map s.allSchemas, map s.allOfs, map s.references.schemas, map s.references.allRefs, map s.patterns.schemas, map s.patterns.allPatterns, map s.enums.schemas, map s.enums.allEnums
+
+//@ func (s *Spec) analyzeItems(name, items, prefix, location)
+//@   requires s != nil && idxMaps(s)
+//@   modifies map s.references.items, map s.references.headerItems, map s.references.parameterItems, map s.references.allRefs, map s.patterns.items, map s.patterns.allPatterns, map s.enums.items, map s.enums.allEnums
+
+// initialize is inlined into its callers; its loops carry the invariants callers need.
+// loop 5 ranges over the paths: the per-method operation maps created so far are fresh objects of this analysis.
+//@ func (s *Spec) initialize()
+//@   inline
+//@   loop 5: invariant forall mth in dom(s.operations) :: fresh(s.operations[mth]) && s.operations[mth] != nil
+
+// ---- pattern / enum getters hand out copies (C16)
+
+//@ func (s *Spec) ParameterPatterns()
+//@   requires s != nil
+//@   modifies nothing
+//@   ensures result != nil && fresh(result)
+//@   ensures dom(result) == dom(s.patterns.parameters)
+//@   ensures forall k in dom(result) :: result[k] == s.patterns.parameters[k]
+
+//@ func (s *Spec) HeaderPatterns()
+//@   requires s != nil
+//@   modifies nothing
+//@   ensures result != nil && fresh(result)
+//@   ensures dom(result) == dom(s.patterns.headers)
+//@   ensures forall k in dom(result) :: result[k] == s.patterns.headers[k]
+
+//@ func (s *Spec) ItemsPatterns()
+//@   requires s != nil
+//@   modifies nothing
+//@   ensures result != nil && fresh(result)
+//@   ensures dom(result) == dom(s.patterns.items)
+//@   ensures forall k in dom(result) :: result[k] == s.patterns.items[k]
+
+//@ func (s *Spec) SchemaPatterns()
+//@   requires s != nil
+//@   modifies nothing
+//@   ensures result != nil && fresh(result)
+//@   ensures dom(result) == dom(s.patterns.schemas)
+//@   ensures forall k in dom(result) :: result[k] == s.patterns.schemas[k]
+
+//@ func (s *Spec) AllPatterns()
+//@   requires s != nil
+//@   modifies nothing
+//@   ensures result != nil && fresh(result)
+//@   ensures dom(result) == dom(s.patterns.allPatterns)
+//@   ensures forall k in dom(result) :: result[k] == s.patterns.allPatterns[k]
+
+//@ func (s *Spec) ParameterEnums()
+//@   requires s != nil
+//@   modifies nothing
+//@   ensures result != nil && fresh(result)
+//@   ensures dom(result) == dom(s.enums.parameters)
+//@   ensures forall k in dom(result) :: result[k] == s.enums.parameters[k]
+
+//@ func (s *Spec) HeaderEnums()
+//@   requires s != nil
+//@   modifies nothing
+//@   ensures result != nil && fresh(result)
+//@   ensures dom(result) == dom(s.enums.headers)
+//@   ensures forall k in dom(result) :: result[k] == s.enums.headers[k]
+
+//@ func (s *Spec) ItemsEnums()
+//@   requires s != nil
+//@   modifies nothing
+//@   ensures result != nil && fresh(result)
+//@   ensures dom(result) == dom(s.enums.items)
+//@   ensures forall k in dom(result) :: result[k] == s.enums.items[k]
+
+//@ func (s *Spec) SchemaEnums()
+//@   requires s != nil
+//@   modifies nothing
+//@   ensures result != nil && fresh(result)
+//@   ensures dom(result) == dom(s.enums.schemas)
+//@   ensures forall k in dom(result) :: result[k] == s.enums.schemas[k]
+
+//@ func (s *Spec) AllEnums()
+//@   requires s != nil
+//@   modifies nothing
+//@   ensures result != nil && fresh(result)
+//@   ensures dom(result) == dom(s.enums.allEnums)
+//@   ensures forall k in dom(result) :: result[k] == s.enums.allEnums[k]
+
+//@ func cloneStringMap(source)
+//@   modifies nothing
+//@   ensures result != nil && fresh(result) && dom(result) == dom(source)
+//@   ensures forall k in dom(result) :: result[k] == source[k]
+//@   loop 1: modifies map res
+//@   loop 1: invariant res != nil && fresh(res) && (forall k string :: (k in dom(res)) <==> (k in seen))
+//@   loop 1: invariant forall k in seen :: k in dom(source) && res[k] == source[k]
+
+//@ func cloneEnumMap(source)
+//@   modifies nothing
+//@   ensures result != nil && fresh(result) && dom(result) == dom(source)
+//@   ensures forall k in dom(result) :: result[k] == source[k]
+//@   loop 1: modifies map res
+//@   loop 1: invariant res != nil && fresh(res) && (forall k string :: (k in dom(res)) <==> (k in seen))
+//@   loop 1: invariant forall k in seen :: k in dom(source) && res[k] == source[k]
